@@ -238,9 +238,11 @@ func parseDoc(b []byte) (map[string]any, error) {
 	return m, nil
 }
 
-// readDoc reads the config file. present=false when it does not exist.
+// readDoc reads the config file through the configured path (a symbolic link is
+// followed, as the library and every other reader of the path do).
+// present=false when nothing can be reached through the path.
 func readDoc(path string) (doc map[string]any, raw []byte, mode os.FileMode, present bool, err error) {
-	fi, err := os.Lstat(path)
+	fi, err := os.Stat(path)
 	if err != nil {
 		if os.IsNotExist(err) {
 			return nil, nil, 0, false, nil
@@ -567,6 +569,37 @@ type caseDoc struct {
 	UnknownInEn int
 	HasHelpers  bool // credsStore / credHelpers present
 	Shape       string
+	// Link: the config path is a symbolic link: "" (regular file), "same" (relative
+	// link to a file of the same directory), "abs" (absolute link into another
+	// directory), "rel" (relative link into another directory)
+	Link string
+}
+
+var linkKinds = []string{"same", "abs", "rel"}
+
+// setLink makes the config path of the case a symbolic link.
+func (d *caseDoc) setLink(kind string) {
+	d.Link = kind
+	d.AbsentDir = false
+	d.Shape += "|link-" + kind
+}
+
+// isLink reports whether the config path itself is (still) a symbolic link.
+func isLink(path string) bool {
+	fi, err := os.Lstat(path)
+	return err == nil && fi.Mode()&os.ModeSymlink != 0
+}
+
+// retext re-serialises Doc after the case generator edited it.
+func (d *caseDoc) retext() {
+	b, err := json.Marshal(d.Doc)
+	if err != nil {
+		panic("harness: cannot encode edited document: " + err.Error())
+	}
+	d.Text = b
+	if d.Doc, err = parseDoc(b); err != nil {
+		panic("harness: edited document does not parse: " + err.Error())
+	}
 }
 
 type docOpts struct {
@@ -718,13 +751,31 @@ func (d *caseDoc) install(dir string) (string, error) {
 	if d.AbsentDir {
 		return dir + "/sub/dir/config.json", nil
 	}
-	if d.Absent {
-		return path, nil
+	file := path
+	if d.Link != "" {
+		target := "real.json"
+		file = dir + "/real.json"
+		if d.Link != "same" {
+			if err := os.Mkdir(dir+"/elsewhere", 0o700); err != nil {
+				return path, err
+			}
+			file = dir + "/elsewhere/real.json"
+			target = "elsewhere/real.json"
+			if d.Link == "abs" {
+				target = file
+			}
+		}
+		if err := os.Symlink(target, path); err != nil {
+			return path, err
+		}
 	}
-	if err := os.WriteFile(path, d.Text, 0o600); err != nil {
+	if d.Absent {
+		return path, nil // with a link: a dangling one
+	}
+	if err := os.WriteFile(file, d.Text, 0o600); err != nil {
 		return path, err
 	}
-	return path, os.Chmod(path, d.Mode)
+	return path, os.Chmod(file, d.Mode)
 }
 
 func (d *caseDoc) newModel() *model {
